@@ -15,6 +15,16 @@ pub fn create_module() -> Scope {
         Ok(Value::List(list, Some(sep), bra))
     });
     def!(f, index(list, value), |s| match s.get(name!(list))? {
+        Value::ArgList(args) => {
+            // The positional arguments act as a list.
+            let value = s.get(name!(value))?;
+            for (i, v) in args.positional.iter().enumerate() {
+                if v == &value {
+                    return Ok(Value::scalar(i + 1));
+                }
+            }
+            Ok(Value::Null)
+        }
         Value::List(v, _, _) => {
             let value = s.get(name!(value))?;
             for (i, v) in v.iter().enumerate() {
